@@ -11,6 +11,7 @@ import JanetModel.Int64.LemmasN
 import JanetModel.Int64.LemmasQ
 import JanetModel.Int64.LemmasC
 import JanetModel.Int64.IeeeQ
+import JanetModel.Int64.IeeeInt
 namespace JanetModel.Props.C14
 open JanetModel.Int64 JanetModel.Gen.Int64
 
@@ -495,6 +496,103 @@ example : valQ (numModulo ieee 0x401c000000000000 0x4000000000000000) = 1 := by
   have hz : isZeroBits 0x4000000000000000 = false := by unfold isZeroBits; rw [d2]; rfl
   have := ((num_mod_over_ieee _ _ ⟨_, _, _, d7⟩ ⟨_, _, _, d2⟩ hz).2 r1 r2 r3).1
   rw [this, v7, v2, hfl]; norm_num
+
+/-! ### integer-valued numbers: the handlers are exact, and agree with the int/s64 and int/u64 operators
+
+`IntVal a x`: the bit pattern `a` is a finite double whose value is the integer `x` (`intVal_of_toInt`: what `Dbl.toInt?`, i.e. the
+range checks of the C, report).  No `ExactAt` / `Repr64` hypothesis is left below: representability of every intermediate result is
+*proved* from |x|, |y| ≤ 2^53. -/
+
+open JanetModel.Int64.Ieee in
+/-- ★ the quotient of two integers of magnitude ≤ 2^53 is never rounded up to the next integer: **⌊RN(p/q)⌋ = ⌊p/q⌋** -/
+theorem rounded_integer_quotient_has_same_floor (p q : ℤ) (hp : |p| ≤ 9007199254740992) (hq0 : q ≠ 0) (hq : |q| ≤ 9007199254740992) :
+    ⌊rneQ ((p : ℚ) / q)⌋ = ⌊(p : ℚ) / q⌋ ∧ ⌊(p : ℚ) / q⌋ = Int.fdiv p q :=
+  ⟨floor_rneQ_ratio p q hp hq0 hq, floor_int_div p q hq0⟩
+
+open JanetModel.Int64.Ieee in
+/-- ★ `+ - * div mod %` on integer-valued doubles x, y with |x|, |y| ≤ 2^53 (the range `int/to-number` produces):
+    `+ - *` give the exact integer whenever it does not exceed 2^53 in magnitude; **`(div x y)` = `Int.fdiv x y` always**;
+    `(mod x y)` = `Int.fmod x y` when y·⌊x/y⌋ does not exceed 2^53 (`mod_side_condition`: same signs, or |x| + |y| ≤ 2^53);
+    `(% x y)` = `Int.tmod x y` always (and for integer-valued doubles of any magnitude) -/
+theorem num_ops_exact_on_integers (a b : Nat) (x y : ℤ) (ha : IntVal a x) (hb : IntVal b y)
+    (hx : |x| ≤ 9007199254740992) (hy : |y| ≤ 9007199254740992) :
+    (|x + y| ≤ 9007199254740992 → IntVal (ieee.add a b) (x + y)) ∧
+    (|x - y| ≤ 9007199254740992 → IntVal (ieee.sub a b) (x - y)) ∧
+    (|x * y| ≤ 9007199254740992 → IntVal (ieee.mul a b) (x * y)) ∧
+    (y ≠ 0 → IntVal (numDivFloor ieee a b) (Int.fdiv x y)) ∧
+    (y ≠ 0 → |y * Int.fdiv x y| ≤ 9007199254740992 → IntVal (numModulo ieee a b) (Int.fmod x y)) ∧
+    (y ≠ 0 → IntVal (numRemainder ieee a b) (Int.tmod x y)) :=
+  ⟨(num_arith_int a b x y ha hb).1, (num_arith_int a b x y ha hb).2.1, (num_arith_int a b x y ha hb).2.2,
+   fun h => num_div_int a b x y ha hb hx hy h, fun h hp => num_mod_int a b x y ha hb hx hy h hp, fun h => num_rem_int a b x y ha hb h⟩
+
+open JanetModel.Int64.Ieee in
+/-- when the side condition of `mod` holds: operands of the same sign, or |x| + |y| ≤ 2^53 -/
+theorem mod_side_condition (x y : ℤ) (hx : |x| ≤ 9007199254740992) (hy0 : y ≠ 0)
+    (h : (0 ≤ x ∧ 0 < y) ∨ (x ≤ 0 ∧ y < 0) ∨ |x| + |y| ≤ 9007199254740992) : |y * Int.fdiv x y| ≤ 9007199254740992 :=
+  mod_product_bound x y hx hy0 h
+
+open JanetModel.Int64.Ieee in
+/-- what is *not* true (and therefore not claimed) without the side condition: `(mod 9007199254740991 -3)` on numbers is -1, the
+    integer modulus is -2 — the product of -3 and the floor of x / (-3), 2^53 + 1, is not a double and rounds to 2^53.  (The implementation answers -1
+    as well; `(mod (int/s64 9007199254740991) -3)` is -2.  Corpus line `mod n:433fffffffffffff n:c008000000000000`.) -/
+theorem num_mod_int_rounds_witness :
+    numModulo ieee 0x433fffffffffffff 0xc008000000000000 = 0xbff0000000000000 ∧
+    (decode 0x433fffffffffffff).toInt? = some 9007199254740991 ∧ (decode 0xc008000000000000).toInt? = some (-3) ∧
+    (decode 0xbff0000000000000).toInt? = some (-1) ∧ Int.fmod 9007199254740991 (-3) = -2 ∧
+    ¬ (|(-3 : ℤ) * Int.fdiv 9007199254740991 (-3)| ≤ 9007199254740992) := by
+  refine ⟨by decide +kernel, by decide +kernel, by decide +kernel, by decide +kernel, by decide +kernel, by decide +kernel⟩
+
+open JanetModel.Int64.Ieee in
+/-- ★ **consistently defined**: for integers x, y of magnitude ≤ 2^53 the operator on two *numbers* (opcode fast path, IEEE
+    instance) and the method on two *int/s64* compute the same integer — `+ - *` when the exact result stays within ±2^53,
+    `div` always, `mod` under `mod_side_condition`, `%` always (y ≠ 0 for the last three; the s64 methods at the guard
+    configuration of the current tree) -/
+theorem number_ops_agree_with_s64_ops (c : Cfg) (x y : ℤ) (hx : |x| ≤ 9007199254740992) (hy : |y| ≤ 9007199254740992) :
+    (∀ p ∈ [("+", x + y), ("-", x - y), ("*", x * y)], |p.2| ≤ 9007199254740992 →
+      opMethod .s64 p.1 x y = .ok p.2 ∧
+      ∃ r, vmOp c ieee "binop" p.1 (Val.ofInt x) (Val.ofInt y) = .ok (.num r) ∧ IntVal r p.2) ∧
+    (y ≠ 0 →
+      (divfMethod c.guardDivf x y = .ok (Int.fdiv x y) ∧
+        ∃ r, vmOp c ieee "divfloor" "div" (Val.ofInt x) (Val.ofInt y) = .ok (.num r) ∧ IntVal r (Int.fdiv x y)) ∧
+      (|y * Int.fdiv x y| ≤ 9007199254740992 →
+        modMethod c.guardMod x y = .ok (Int.fmod x y) ∧
+        ∃ r, vmOp c ieee "modulo" "mod" (Val.ofInt x) (Val.ofInt y) = .ok (.num r) ∧ IntVal r (Int.fmod x y)) ∧
+      (divMethodS true "rem" "%" x y = .ok (Int.tmod x y) ∧
+        ∃ r, vmOp c ieee "remainder" "%" (Val.ofInt x) (Val.ofInt y) = .ok (.num r) ∧ IntVal r (Int.tmod x y))) := by
+  have ia := intVal_encodeInt x hx
+  have ib := intVal_encodeInt y hy
+  have hxs : Kind.s64.inRange x := by have := abs_le.1 hx; simp only [Kind.inRange, int64Min, int64Max]; omega
+  have hys : Kind.s64.inRange y := by have := abs_le.1 hy; simp only [Kind.inRange, int64Min, int64Max]; omega
+  have hmin : ¬ (x = int64Min ∧ y = -1) := by have := abs_le.1 hx; simp only [int64Min]; omega
+  have E := num_ops_exact_on_integers _ _ x y ia ib hx hy
+  refine ⟨fun p hp hb => ?_, fun hy0 => ⟨⟨?_, _, rfl, E.2.2.2.1 hy0⟩, fun hp => ⟨?_, _, rfl, E.2.2.2.2.1 hy0 hp⟩, ?_, _, rfl, E.2.2.2.2.2 hy0⟩⟩
+  · simp only [List.mem_cons, List.mem_nil_iff, or_false] at hp
+    have hr : ∀ z : ℤ, |z| ≤ 9007199254740992 → Kind.s64.inRange z := fun z hz => by
+      have := abs_le.1 hz; simp only [Kind.inRange, int64Min, int64Max]; omega
+    rcases hp with rfl | rfl | rfl
+    · exact ⟨s64_op_exact_of_inRange x y |>.1 (hr _ hb), _, rfl, E.1 hb⟩
+    · exact ⟨s64_op_exact_of_inRange x y |>.2.1 (hr _ hb), _, rfl, E.2.1 hb⟩
+    · exact ⟨s64_op_exact_of_inRange x y |>.2.2 (hr _ hb), _, rfl, E.2.2.1 hb⟩
+  · exact divf_eq_floor_div _ x y hxs hy0 hmin
+  · exact mod_eq_floor_mod _ x y hxs hys hy0 (Or.inr hmin)
+  · exact ((trunc_div_rem_correct x y hy0).1 hmin).2
+
+/-- … and int/u64 on non-negative operands: floor and truncating division (modulus, remainder) coincide there, and are what
+    the u64 methods compute -/
+theorem u64_ops_agree_on_nonneg (x y : ℤ) (hx : 0 ≤ x) (hy : 0 < y) :
+    divMethodU "div" "/" x y = .ok (Int.fdiv x y) ∧ divMethodU "div" "/" x y = .ok (Int.tdiv x y) ∧
+    divMethodU "mod" "%" x y = .ok (Int.fmod x y) ∧ divMethodU "rem" "%" x y = .ok (Int.tmod x y) := by
+  have h := trunc_div_rem_correct x y (by omega)
+  rw [Int.fdiv_eq_ediv_of_nonneg _ (by omega), Int.tdiv_eq_ediv_of_nonneg hx, Int.fmod_eq_emod_of_nonneg _ (by omega),
+    Int.tmod_eq_emod_of_nonneg hx]
+  exact ⟨h.2.2.1, h.2.2.1, h.2.2.2.2, h.2.2.2.1⟩
+
+open JanetModel.Int64.Ieee in
+/-- non-vacuity: `(div -7 2)` = -4, `(mod -7 2)` = 1, `(% -7 2)` = -1 on numbers, through the theorem -/
+example : IntVal (numDivFloor ieee (encodeInt (-7)) (encodeInt 2)) (-4) ∧ IntVal (numModulo ieee (encodeInt (-7)) (encodeInt 2)) 1 ∧
+    IntVal (numRemainder ieee (encodeInt (-7)) (encodeInt 2)) (-1) := by
+  have E := num_ops_exact_on_integers _ _ (-7) 2 (intVal_encodeInt _ (by decide)) (intVal_encodeInt _ (by decide)) (by decide) (by decide)
+  exact ⟨E.2.2.2.1 (by decide), E.2.2.2.2.1 (by decide) (by decide), E.2.2.2.2.2 (by decide)⟩
 
 /-- the handlers are what the opcodes run on two numbers -/
 theorem vm_number_handlers (c : Cfg) (N : NumOps) (a b : Nat) :
